@@ -334,11 +334,33 @@ func innermostRepoFrame(stack string) string {
 
 func mpName(i int) string { return fmt.Sprintf("m%d", i) }
 
+// labelsFor gives every Mount request its own label map. The key SETS differ from
+// request to request (subsets of six keys, including the empty and the nil map), so a
+// label that leaks from one record into another during restoration is visible: restored
+// labels are compared with the recorded ones as whole maps.
 func labelsFor(id int) map[string]string {
-	return map[string]string{
-		"verif/id": fmt.Sprintf("L%d", id),
-		"containerd.io/snapshot/remote/stargz.reference": "registry.invalid/img:1",
+	h := prng.Hash64(0xC17, uint64(id))
+	switch h % 9 {
+	case 0:
+		return nil
+	case 1:
+		return map[string]string{}
 	}
+	keys := [...]string{
+		"verif/id",
+		"containerd.io/snapshot/remote/stargz.reference",
+		"containerd.io/snapshot/remote/stargz.digest",
+		"containerd.io/snapshot/remote/stargz.layers",
+		"containerd.io/snapshot/remote/urls.0",
+		"verif/extra",
+	}
+	l := map[string]string{}
+	for j, k := range keys {
+		if (h>>(8+uint(j)))&1 == 1 {
+			l[k] = fmt.Sprintf("v%d.%d", id, j)
+		}
+	}
+	return l
 }
 
 func runSeqCase(r *vf.Run, c seqCase, dir string) {
